@@ -418,7 +418,7 @@ def validate_cid_loads(report, trace_path, label):
         cfg = os.path.join(folder, "CidTraceMC.cfg")
         with open(cfg, "w", encoding="utf-8") as out:
             out.write("INIT TInit\nNEXT TNext\nCONSTANTS\n  Formats <- None0\n  MaxFields = 0\n  MaxChecks = 0\n  FTags <- None0\n"
-                      "  CTags <- None0\n  Decorations <- None0\nINVARIANT Progress\nCHECK_DEADLOCK FALSE\n")
+                      "  CTags <- None0\n  Decorations <- None0\n  ExamplesJudgedWhenComplete = TRUE\nINVARIANT Progress\nCHECK_DEADLOCK FALSE\n")
         result = core.tlc(module, cfg, env={"TRACE_FILE": trace_file}, coverage=False, tag="cidtracetlc", workers=8)
         report.add_tlc("CidLoadTrace %s: %d recorded Cid.read calls" % (label, len(traces)), result)
         furthest = {}
